@@ -224,6 +224,15 @@ def layout(ctx, rule, expect_c=None):
             forms.append((rg.a.split("::")[-1], [L.show(e) for e in ends]))
         want = [("RangeTo", ["2"]), ("Range", ["2", "34*n + 2"]), ("Range", ["34*n + 2", "34*n + 4"]), ("Range", ["34*n + 4", "2*m + 34*n + 4"])]
         ctx.ob(rule, "decoder:offsets", forms == want, dec.loc(gets[0][0]) if gets else dec.loc(0), "decoder reads %s; layout requires %s" % (forms, want), dec)
+        # the decoder returns only after all four parts were read: one Ok under four successful reads, BytesTooShort under each failed read
+        rows = M.return_table(prog, dec)
+        oks = [(v, at) for _, v, at in rows if v.startswith("Result::Ok{")]
+        errs = [(v, at) for _, v, at in rows if not v.startswith("Result::Ok{")]
+        ok_shape = len(oks) == 1 and len(oks[0][1]) == 4 and all(a.startswith("is:Some(") and "slice::get(bytes, " in a for a in oks[0][1]) \
+            and re.match(r"^Result::Ok\{essential_types::predicate::Predicate::Predicate\{std::iter::Iterator::collect\(.*\), std::iter::Iterator::collect\(.*\)\}\}$", oks[0][0]) is not None
+        err_shape = len(errs) == 4 and all(v.endswith("PredicateDecodeError::BytesTooShort{}}") and at and at[-1].startswith("is:None(") and "slice::get(bytes, " in at[-1] for v, at in errs)
+        ctx.ob(rule, "decoder:returns-only-after-reading-all-four-parts", ok_shape and err_shape, dec.loc(0),
+               "%d Ok return(s) under %s successful reads; %d error return(s)" % (len(oks), [len(at) for _, at in oks], len(errs)), dec)
 
 
 def flatten_chain(t):
